@@ -10,16 +10,16 @@ void c5_producer(void *arg)
 	for (int i = 0; i < C5.n; i++) {
 		uint8_t v = c5_value(i);
 		if (C5.pmode == P_PUTCHAR) {
-			orc_put_begin(); ringbuf_putchar(&c5_rb, (char)v); orc_put_end(1, v);
+			orc_put_begin(v); ringbuf_putchar(&c5_rb, (char)v); orc_put_end(1, v);
 			vs_note((uint64_t)i);
 		} else if (C5.pmode == P_RETRY) {
 			for (;;) {
-				orc_put_begin(); bool ok = ringbuf_put(&c5_rb, v); orc_put_end(ok, v);
+				orc_put_begin(v); bool ok = ringbuf_put(&c5_rb, v); orc_put_end(ok, v);
 				if (ok) break;		/* a failed attempt changes nothing: the retry is a visible spin */
 			}
 			vs_note((uint64_t)i);
 		} else {
-			orc_put_begin(); bool ok = ringbuf_put(&c5_rb, v); orc_put_end(ok, v);
+			orc_put_begin(v); bool ok = ringbuf_put(&c5_rb, v); orc_put_end(ok, v);
 			vs_note((uint64_t)(i * 2 + ok));
 		}
 	}
@@ -50,8 +50,8 @@ void c5_irq_put(void *arg)
 {
 	int i = (int)(intptr_t)arg;
 	uint8_t v = c5_value(i);
-	if (C5.pmode == P_PUTCHAR) { orc_put_begin(); ringbuf_putchar(&c5_rb, (char)v); orc_put_end(1, v); }
-	else { orc_put_begin(); bool ok = ringbuf_put(&c5_rb, v); orc_put_end(ok, v); }
+	if (C5.pmode == P_PUTCHAR) { orc_put_begin(v); ringbuf_putchar(&c5_rb, (char)v); orc_put_end(1, v); }
+	else { orc_put_begin(v); bool ok = ringbuf_put(&c5_rb, v); orc_put_end(ok, v); }
 }
 void c5_irq_get(void *arg)
 {
